@@ -3,6 +3,8 @@ package main
 // C10 — WriteTo emits one complete frame and reports its size truthfully.
 
 import (
+	"go/constant"
+	"os"
 	"fmt"
 	"go/token"
 	"go/types"
@@ -16,6 +18,15 @@ func init() {
 	register(&PropertyCheck{ID: "C10", Level: "other", Run: checkC10, Canaries: []Canary{
 		{Name: "returns-len-instead-of-n", Rule: "R10.1", Where: "(*PingReq).WriteTo", Edits: []Edit{{"pingreq.go", "\tn, err := w.Write(b)\n\treturn int64(n), err", "\t_, err := w.Write(b)\n\treturn int64(len(b)), err"}}},
 		{Name: "header-and-body-written-separately", Rule: "R10.1", Where: "(*PingResp).WriteTo", Edits: []Edit{{"pingresp.go", "\tn, err := w.Write(b)\n\treturn int64(n), err", "\tn, err := w.Write(b[:1])\n\tif err != nil {\n\t\treturn int64(n), err\n\t}\n\tm, err := w.Write(b[1:])\n\treturn int64(n + m), err"}}},
+		{Name: "size-method-adds-the-parts", Silent: true, Edits: []Edit{{"connack.go", "\tb := make([]byte, p.fill(_LEN, 0))\n\tp.fill(b, 0)\n\tn, err := w.Write(b)\n\treturn int64(n), err\n}\n\nfunc (p *ConnAck) fill(", "\tb := make([]byte, p.width())\n\tp.fill(b, 0)\n\tn, err := w.Write(b)\n\treturn int64(n), err\n}\n\nfunc (p *ConnAck) fill("}, {"connack.go", "func (p *ConnAck) width() int {\n\treturn p.fill(_LEN, 0)\n}", "func (p *ConnAck) width() int {\n\trem := vbint(p.variableHeader(_LEN, 0))\n\treturn p.fixed.width() + rem.width() + int(rem)\n}"}}},
+		{Name: "size-method-one-byte-short", Rule: "R10.1", Where: "(*ConnAck).WriteTo", Edits: []Edit{{"connack.go", "\tb := make([]byte, p.fill(_LEN, 0))\n\tp.fill(b, 0)\n\tn, err := w.Write(b)\n\treturn int64(n), err\n}\n\nfunc (p *ConnAck) fill(", "\tb := make([]byte, p.width())\n\tp.fill(b, 0)\n\tn, err := w.Write(b)\n\treturn int64(n), err\n}\n\nfunc (p *ConnAck) fill("}, {"connack.go", "func (p *ConnAck) width() int {\n\treturn p.fill(_LEN, 0)\n}", "func (p *ConnAck) width() int {\n\trem := vbint(p.variableHeader(_LEN, 0))\n\treturn p.fixed.width() + rem.width() + int(rem) - 1\n}"}}},
+		{Name: "size-method-assumes-a-one-byte-length-field", Rule: "R10.1", Where: "(*ConnAck).WriteTo", Edits: []Edit{{"connack.go", "\tb := make([]byte, p.fill(_LEN, 0))\n\tp.fill(b, 0)\n\tn, err := w.Write(b)\n\treturn int64(n), err\n}\n\nfunc (p *ConnAck) fill(", "\tb := make([]byte, p.width())\n\tp.fill(b, 0)\n\tn, err := w.Write(b)\n\treturn int64(n), err\n}\n\nfunc (p *ConnAck) fill("}, {"connack.go", "func (p *ConnAck) width() int {\n\treturn p.fill(_LEN, 0)\n}", "func (p *ConnAck) width() int {\n\trem := vbint(p.variableHeader(_LEN, 0))\n\treturn p.fixed.width() + 1 + int(rem)\n}"}}},
+		{Name: "remaining-length-in-a-two-path-helper", Silent: true, Edits: []Edit{{"publish.go", "func (p *Publish) WriteTo(w io.Writer) (int64, error) {\n\tb := make([]byte, p.fill(_LEN, 0))\n\tp.fill(b, 0)\n\tn, err := w.Write(b)\n\treturn int64(n), err\n}\n\nfunc (p *Publish) width() int {\n\treturn p.fill(_LEN, 0)\n}\n\nfunc (p *Publish) fill(b []byte, i int) int {\n\tremainingLen := vbint(p.variableHeader(_LEN, 0))\n\n\tif len(p.payload) > 0 {\n\t\tremainingLen += vbint(p.payload.fill(_LEN, 0))\n\t}\n\n\ti += p.fixed.fill(b, i)      // firstByte header\n\ti += remainingLen.fill(b, i) // remaining length\n\ti += p.variableHeader(b, i)  // variable header\n\tif len(p.payload) > 0 {\n\t\ti += p.payload.fill(b, i) // payload\n\t}\n\n\treturn i\n}\nfunc (p *Publish) variableHeader(b []byte, i int) int {\n\tn := i\n\n\ti += p.topicName.fill(b, i)\n\tif v := p.QoS(); v == 1 || v == 2 {\n\t\ti += p.packetID.fill(b, i)\n\t}\n\ti += vbint(p.properties(_LEN, 0)).fill(b, i) // Properties len\n\ti += p.properties(b, i)                      // Properties\n\n\treturn i - n\n}\n\n", "func (p *Publish) WriteTo(w io.Writer) (int64, error) {\n\tb := make([]byte, p.width())\n\tp.fill(b, 0)\n\tn, err := w.Write(b)\n\treturn int64(n), err\n}\n\nfunc (p *Publish) width() int {\n\treturn p.fill(_LEN, 0)\n}\n\n// remainingLen returns the number of bytes following the fixed\n// header, i.e. the variable header and the payload.\nfunc (p *Publish) remainingLen() vbint {\n\tn := vbint(p.variableHeader(_LEN, 0))\n\tif p.hasPayload() {\n\t\tn += vbint(p.payload.width())\n\t}\n\treturn n\n}\n\nfunc (p *Publish) hasPayload() bool { return len(p.payload) > 0 }\n\nfunc (p *Publish) fill(b []byte, i int) int {\n\tremainingLen := p.remainingLen()\n\n\ti += p.fixed.fill(b, i)      // firstByte header\n\ti += remainingLen.fill(b, i) // remaining length\n\ti += p.variableHeader(b, i)  // variable header\n\tif p.hasPayload() {\n\t\ti += p.payload.fill(b, i) // payload\n\t}\n\n\treturn i\n}\n\nfunc (p *Publish) variableHeader(b []byte, i int) int {\n\tn := i\n\tpropl := vbint(p.properties(_LEN, 0))\n\n\ti += p.topicName.fill(b, i)\n\tswitch p.QoS() {\n\tcase 1, 2:\n\t\ti += p.packetID.fill(b, i)\n\t}\n\ti += propl.fill(b, i)   // Properties len\n\ti += p.properties(b, i) // Properties\n\n\treturn i - n\n}\n\n"}}},
+		{Name: "two-path-helper-forgets-a-one-byte-payload", Rule: "R10.7", Where: "Publish", Edits: []Edit{{"publish.go", "func (p *Publish) WriteTo(w io.Writer) (int64, error) {\n\tb := make([]byte, p.fill(_LEN, 0))\n\tp.fill(b, 0)\n\tn, err := w.Write(b)\n\treturn int64(n), err\n}\n\nfunc (p *Publish) width() int {\n\treturn p.fill(_LEN, 0)\n}\n\nfunc (p *Publish) fill(b []byte, i int) int {\n\tremainingLen := vbint(p.variableHeader(_LEN, 0))\n\n\tif len(p.payload) > 0 {\n\t\tremainingLen += vbint(p.payload.fill(_LEN, 0))\n\t}\n\n\ti += p.fixed.fill(b, i)      // firstByte header\n\ti += remainingLen.fill(b, i) // remaining length\n\ti += p.variableHeader(b, i)  // variable header\n\tif len(p.payload) > 0 {\n\t\ti += p.payload.fill(b, i) // payload\n\t}\n\n\treturn i\n}\nfunc (p *Publish) variableHeader(b []byte, i int) int {\n\tn := i\n\n\ti += p.topicName.fill(b, i)\n\tif v := p.QoS(); v == 1 || v == 2 {\n\t\ti += p.packetID.fill(b, i)\n\t}\n\ti += vbint(p.properties(_LEN, 0)).fill(b, i) // Properties len\n\ti += p.properties(b, i)                      // Properties\n\n\treturn i - n\n}\n\n", "func (p *Publish) WriteTo(w io.Writer) (int64, error) {\n\tb := make([]byte, p.width())\n\tp.fill(b, 0)\n\tn, err := w.Write(b)\n\treturn int64(n), err\n}\n\nfunc (p *Publish) width() int {\n\treturn p.fill(_LEN, 0)\n}\n\n// remainingLen returns the number of bytes following the fixed\n// header, i.e. the variable header and the payload.\nfunc (p *Publish) remainingLen() vbint {\n\tn := vbint(p.variableHeader(_LEN, 0))\n\tif p.hasPayload() && len(p.payload) > 1 {\n\t\tn += vbint(p.payload.width())\n\t}\n\treturn n\n}\n\nfunc (p *Publish) hasPayload() bool { return len(p.payload) > 0 }\n\nfunc (p *Publish) fill(b []byte, i int) int {\n\tremainingLen := p.remainingLen()\n\n\ti += p.fixed.fill(b, i)      // firstByte header\n\ti += remainingLen.fill(b, i) // remaining length\n\ti += p.variableHeader(b, i)  // variable header\n\tif p.hasPayload() {\n\t\ti += p.payload.fill(b, i) // payload\n\t}\n\n\treturn i\n}\n\nfunc (p *Publish) variableHeader(b []byte, i int) int {\n\tn := i\n\tpropl := vbint(p.properties(_LEN, 0))\n\n\ti += p.topicName.fill(b, i)\n\tswitch p.QoS() {\n\tcase 1, 2:\n\t\ti += p.packetID.fill(b, i)\n\t}\n\ti += propl.fill(b, i)   // Properties len\n\ti += p.properties(b, i) // Properties\n\n\treturn i - n\n}\n\n"}}},
+		{Name: "string-size-by-concatenation-is-not-the-dry-run", Rule: "R10.4", Where: "(*SubAck).String", Edits: []Edit{{"suback.go", ")\n\n// NewSubAck returns a suback packet without reason codes.\nfunc NewSubAck() *SubAck {\n\treturn &SubAck{fixed: bits(SUBACK)}\n}\n\ntype SubAck struct {\n\tfixed    bits\n\tpacketID wuint16\n\tUserProperties\n\n\treasonString wstring\n\treasonCodes  []uint8\n}\n\nfunc (p *SubAck) String() string {\n\treturn fmt.Sprintf(\"%s p%v %v bytes\",\n\t\tfirstByte(p.fixed).String(),\n\t\tp.packetID,\n\t\tp.width(),\n\t)", "\t\"strconv\"\n)\n\n// NewSubAck returns a suback packet without reason codes.\nfunc NewSubAck() *SubAck {\n\treturn &SubAck{fixed: bits(SUBACK)}\n}\n\ntype SubAck struct {\n\tfixed    bits\n\tpacketID wuint16\n\tUserProperties\n\n\treasonString wstring\n\treasonCodes  []uint8\n}\n\nfunc (p *SubAck) String() string {\n\treturn firstByte(p.fixed).String() + \" p\" + strconv.Itoa(int(p.packetID)) +\n\t\t\" \" + strconv.Itoa(2+p.variableHeader(_LEN, 0)) + \" bytes\""}}},
+		{Name: "encoder-takes-another-path-at-offset-0", Rule: "R10.3", Where: "properties", Edits: []Edit{{"userprop.go", "func (p *UserProperties) properties(b []byte, i int) int {", "func (p *UserProperties) properties(b []byte, i int) int {\n\tif i == 0 {\n\t\t// only the length is wanted: one identifier byte and the\n\t\t// key value pair for each property\n\t\tvar n int\n\t\tfor _, v := range *p {\n\t\t\tn += UserProperty.width() + v.width()\n\t\t}\n\t\treturn n\n\t}"}}},
+		{Name: "size-method-with-a-mistyped-threshold", Rule: "R10.1", Where: "(*Publish).WriteTo", Edits: []Edit{{"publish.go", "\tb := make([]byte, p.fill(_LEN, 0))\n\tp.fill(b, 0)\n\tn, err := w.Write(b)\n\treturn int64(n), err\n}\n\nfunc (p *Publish) width() int {\n\treturn p.fill(_LEN, 0)", "\tb := make([]byte, p.width())\n\tp.fill(b, 0)\n\tn, err := w.Write(b)\n\treturn int64(n), err\n}\n\n// width returns the size of the encoded packet. It is used by both\n// String and WriteTo, so the size is summed up from the parts\n// instead of running the entire encoder an extra time.\nfunc (p *Publish) width() int {\n\trem := p.variableHeader(_LEN, 0) + p.payload.width()\n\treturn p.fixed.width() + lenWidth(rem) + rem\n}\n\n// lenWidth returns the number of bytes a remaining length of n\n// occupies, see vbint.fill\nfunc lenWidth(n int) int {\n\tswitch {\n\tcase n < 128:\n\t\treturn 1\n\tcase n < 16384:\n\t\treturn 2\n\tcase n < 2097512:\n\t\treturn 3\n\t}\n\treturn 4"}}},
+		{Name: "two-path-remaining-length-off-at-128-bytes-of-properties", Rule: "R10.7", Where: "ConnAck", Edits: []Edit{{"connack.go", "\ti += p.fixed.fill(b, i)                          // firstByte header\n\ti += vbint(p.variableHeader(_LEN, 0)).fill(b, i) // remaining length\n\ti += p.variableHeader(b, i)                      // variable header\n\treturn i", "\ti += p.fixed.fill(b, i)          // firstByte header\n\ti += p.remainingLen().fill(b, i) // remaining length\n\ti += p.variableHeader(b, i)      // variable header\n\treturn i\n}\n\n// remainingLen returns the size of the variable header. The encoder\n// is not used for this as it would calculate the properties twice.\nfunc (p *ConnAck) remainingLen() vbint {\n\tpropl := p.properties(_LEN, 0)\n\t// acknowledge flags, reason code and one byte property length\n\tn := 3 + propl\n\tif propl > 128 {\n\t\t// property length needs more than one byte\n\t\tn += vbint(propl).width() - 1\n\t}\n\treturn vbint(n)"}}},
 		{Name: "buffer-sized-by-other-call", Rule: "R10.1", Where: "(*ConnAck).WriteTo", Edits: []Edit{{"connack.go", "\tb := make([]byte, p.fill(_LEN, 0))\n\tp.fill(b, 0)\n\tn, err := w.Write(b)", "\tb := make([]byte, p.variableHeader(_LEN, 0)+2)\n\tp.fill(b, 0)\n\tn, err := w.Write(b)"}}},
 		{Name: "emission-width-not-added", Rule: "R10.2", Where: "(*ConnAck).variableHeader", Edits: []Edit{{"connack.go", "\ti += p.reasonCode.fill(b, i)\n\ti += vbint(p.properties(_LEN, 0)).fill(b, i) // Properties len", "\tp.reasonCode.fill(b, i)\n\ti += vbint(p.properties(_LEN, 0)).fill(b, i) // Properties len"}}},
 		{Name: "emission-at-stale-offset", Rule: "R10.2", Where: "(*Auth).properties", Edits: []Edit{{"auth.go", "\ti += p.authData.fillProp(b, i, AuthData)", "\ti += p.authData.fillProp(b, n, AuthData)"}}},
@@ -93,6 +104,13 @@ func (p *Prog) dryRunCall(v ssa.Value, depth int) (*ssa.Function, ssa.Value, boo
 			}
 		}
 	}
+	// a size method of a packet type that computes the frame's size in another way: same number as the dry run
+	// of the type's encoder on every abstract packet state
+	if len(args) == 1 && depth == 0 {
+		if f, _ := p.sizeByEvaluation(sc); f != nil {
+			return f, args[0], true
+		}
+	}
 	return nil, nil, false
 }
 
@@ -151,6 +169,10 @@ func checkC10(p *Prog, c *Check) {
 		switch {
 		case f.ok:
 			c.OK("R10.8", f.cons, f.pos, f.how)
+		case f.unk && f.top != nil && evaluatedOK(c, "R10.7", f.top):
+			// the structural argument does not reach this spelling of the remaining length (a helper with several
+			// paths, say); the equation itself was evaluated on every abstract packet state of the type (R10.7)
+			c.OK("R10.8", f.cons, f.pos, "not decided structurally ("+f.how+"); backed by R10.7: the remaining length equals the bytes that follow on every abstract packet state of the type")
 		case f.unk:
 			c.Unk("R10.8", f.cons, f.pos, f.how)
 		default:
@@ -289,8 +311,19 @@ func checkWriteTo(p *Prog, c *Check, fn *ssa.Function) (*ssa.Function, bool) {
 	}
 	f, recv, ok := p.dryRunCall(buf.Len, 0)
 	if !ok || buf.Cap != buf.Len {
-		c.Bad("R10.1", cons, posOf(p, buf), "the buffer is not sized by the dry run fill(nil-slice, 0): "+describeVal(buf.Len))
+		why := describeVal(buf.Len)
+		if call, isC := buf.Len.(*ssa.Call); isC {
+			if _, w := p.sizeByEvaluation(call.Call.StaticCallee()); w != "" {
+				why += " — " + w
+			}
+		}
+		c.Bad("R10.1", cons, posOf(p, buf), "the buffer is not sized by the dry run fill(nil-slice, 0): "+why)
 		return nil, false
+	}
+	if call, isC := buf.Len.(*ssa.Call); isC {
+		if g, w := p.sizeByEvaluation(call.Call.StaticCallee()); g != nil {
+			c.OK("R10.1", cons+"#size", posOf(p, buf), w)
+		}
 	}
 	if !isRecvOf(p, fn, recv) {
 		c.Bad("R10.1", cons, posOf(p, buf), "the dry run is made on another receiver")
@@ -973,6 +1006,21 @@ func checkDryEqualsReal(p *Prog, c *Check, fn *ssa.Function, buf, off *ssa.Param
 			c.Bad("R10.3", cons, posOf(p, iff), "the width returned depends on whether the buffer is large enough: the dry run (nil buffer) and the real run disagree")
 		}
 	}
+	// … and no branch on the offset alone: the dry run is made at offset 0, the real run of a nested encoder at
+	// another one — a path chosen by `i == 0` is a path the dry run takes and the real run does not
+	if off != nil {
+		dependsOnOff := func(v ssa.Value) bool {
+			return dependsOn(v, func(x ssa.Value) bool { return x == ssa.Value(off) }, map[ssa.Value]bool{})
+		}
+		for _, b := range fn.Blocks {
+			iff, ok := terminator(b).(*ssa.If)
+			if !ok || dependsOnBuf(iff.Cond) || !dependsOnOff(iff.Cond) {
+				continue
+			}
+			okAll = false
+			c.Unk("R10.3", cons+"#offset-branch", posOf(p, iff), "a branch of the encoder depends on the offset it is asked to write at (not on the room in the buffer): the dry run at offset 0 and the real run can take different paths, so their widths are not shown to agree")
+		}
+	}
 	// R10.6: a size guard skips its writes only when the buffer really is too short for them
 	for _, f := range writeGuardFindings(p, pr, fn, buf, ems) {
 		if f.ok {
@@ -1018,7 +1066,7 @@ func checkStringSize(p *Prog, c *Check, fn *ssa.Function, fill *ssa.Function) {
 		}
 	}
 	if len(prints) == 0 {
-		c.OK("R10.4", cons, p.Pos(fn.Pos()), "prints no size (nothing to compare), neither itself nor in the mq functions it calls")
+		c.Unk("R10.4", cons, p.Pos(fn.Pos()), "no \"N bytes\" print found (neither a constant-format fmt call nor a concatenation with strconv, here or in the mq functions it calls): that String states the frame's size is not decided")
 	}
 }
 
@@ -1042,6 +1090,33 @@ func sizePrintsOf(p *Prog, fn *ssa.Function, depth int, seen map[*ssa.Function]b
 	var out []sizePrint
 	for _, b := range fn.Blocks {
 		for _, ins := range b.Instrs {
+			// the concatenation form: … + strconv.Itoa(size) + " bytes"
+			if bo, isBin := ins.(*ssa.BinOp); isBin && bo.Op == token.ADD {
+				if cs, isC := bo.Y.(*ssa.Const); isC && cs.Value != nil && cs.Value.Kind() == constant.String && strings.HasPrefix(constant.StringVal(cs.Value), " bytes") {
+					var num ssa.Value = bo.X
+					if lb, ok := bo.X.(*ssa.BinOp); ok && lb.Op == token.ADD {
+						num = lb.Y
+					}
+					sp := sizePrint{pos: posOf(p, bo)}
+					if nc, ok := num.(*ssa.Call); ok {
+						if sc := nc.Call.StaticCallee(); sc != nil && (fullName(sc) == "strconv.Itoa" || fullName(sc) == "strconv.FormatInt" || fullName(sc) == "strconv.FormatUint") && len(nc.Call.Args) >= 1 {
+							arg := stripConvs(nc.Call.Args[0])
+							if f, recv, ok := p.dryRunCall(arg, 0); ok {
+								sp.f, sp.recv = f, recv
+							} else if prm, isP := arg.(*ssa.Parameter); isP {
+								sp.recv = prm
+							} else {
+								sp.why = describeVal(arg)
+							}
+							out = append(out, sp)
+							continue
+						}
+					}
+					sp.why = "the text in front of \" bytes\" is " + describeVal(num) + ", not a number rendered from the dry run"
+					out = append(out, sp)
+					continue
+				}
+			}
 			call, ok := ins.(*ssa.Call)
 			if !ok {
 				continue
@@ -1357,6 +1432,7 @@ func bytePerIteration(p *Prog, pr *Prover, fn *ssa.Function, buf, off *ssa.Param
 type guardFinding struct {
 	cons, pos, how string
 	ok, unk        bool
+	top            *ssa.Function // an undecided finding about the remaining length of this packet encoder
 }
 
 // writeGuardFindings: for every branch of an encoder primitive that depends on the buffer, the side
@@ -1451,55 +1527,387 @@ func writeGuardFindings(p *Prog, pr *Prover, fn *ssa.Function, buf *ssa.Paramete
 	return out
 }
 
+// c10Specs: the abstract packet states C10 evaluates encoders on — the C01 generator's, plus (C10's domain
+// includes malformed but constructible packets) every state once more with QoS 3 and the packet without any
+// filter / reason code.
+func (p *Prog) c10Specs(tn string) []stateSpec {
+	specs := p.stateSpecs(tn)
+	if p.Method(tn, "SetQoS") != nil {
+		for _, sp := range append([]stateSpec(nil), specs...) {
+			if sp.bias > 0 {
+				continue
+			}
+			sp.name += ", QoS 3"
+			sp.qos = 3
+			specs = append(specs, sp)
+		}
+	}
+	if payloadList[tn] != "" {
+		for _, sp := range append([]stateSpec(nil), specs...) {
+			if sp.bias > 0 || !(strings.HasPrefix(sp.name, "none") || strings.HasPrefix(sp.name, "all")) || strings.Contains(sp.name, "twice") || strings.Contains(sp.name, "but") {
+				continue
+			}
+			sp.name += ", empty payload list"
+			sp.emptyList = true
+			specs = append(specs, sp)
+		}
+	}
+	return specs
+}
+
+// c10State builds the abstract state for spec (with the will packet it asks for).
+func (p *Prog) c10State(tn string, spec stateSpec) (*packetState, string) {
+	var wp *packetState
+	if spec.will == 1 {
+		wp, _ = p.willState()
+	}
+	if spec.will == 3 || spec.will == 1 && spec.bias > 0 {
+		wp, _ = p.willFor(spec)
+	}
+	return p.buildStateSpec(tn, spec, nil, wp)
+}
+
+// sizeByEvaluation: a method S of a packet type that is not syntactically the dry run of the type's encoder
+// (`width()` as fixed.width() + rem.width() + int(rem)) but gives the same number: S and fill(nil-slice, 0) are
+// evaluated on every abstract packet state of the type.  Returns the encoder when they agree on all of them;
+// otherwise the reason (empty when S is not a candidate at all).
+func (p *Prog) sizeByEvaluation(sz *ssa.Function) (*ssa.Function, string) {
+	type res struct {
+		f   *ssa.Function
+		why string
+	}
+	key := "sizeeval:" + qname(sz)
+	if v, ok := p.cache[key]; ok {
+		r := v.(res)
+		return r.f, r.why
+	}
+	p.cache[key] = res{}
+	f, why := p.sizeByEvaluation1(sz)
+	p.cache[key] = res{f, why}
+	return f, why
+}
+
+func (p *Prog) sizeByEvaluation1(sz *ssa.Function) (*ssa.Function, string) {
+	if sz == nil || sz.Blocks == nil || !p.inMQ(sz) || sz.Signature.Recv() == nil || len(sz.Params) != 1 || isFillFamily(sz) {
+		return nil, ""
+	}
+	if sz.Signature.Results().Len() != 1 {
+		return nil, ""
+	}
+	if bt, ok := sz.Signature.Results().At(0).Type().Underlying().(*types.Basic); !ok || bt.Kind() != types.Int {
+		return nil, ""
+	}
+	nt := namedOf(sz.Signature.Recv().Type())
+	if nt == nil {
+		return nil, ""
+	}
+	tn := nt.Obj().Name()
+	isPacket := false
+	for _, x := range packetTypeNames() {
+		if x == tn {
+			isPacket = true
+		}
+	}
+	fill := p.Method(tn, "fill")
+	if !isPacket || fill == nil || !isFillFamily(fill) {
+		return nil, ""
+	}
+	n := 0
+	for _, spec := range p.c10Specs(tn) {
+		st, why := p.c10State(tn, spec)
+		if st == nil {
+			return nil, "state " + spec.name + ": " + why
+		}
+		_, total, why := p.encoderTrace(st, fill)
+		if why != "" {
+			return nil, "state " + spec.name + ": " + why
+		}
+		ctx := p.newSym(p.globalInput())
+		for k, v := range st.Mem {
+			ctx.mem[k] = v
+		}
+		for k, v := range st.Maps {
+			ctx.maps[k] = v
+		}
+		rs, ok := ctx.evalPure(sz, []sv{{k: 'p', addr: st.Recv}}, nil, 0)
+		if !ok || len(rs) != 1 || rs[0].k != 'i' {
+			return nil, "state " + spec.name + ": cannot evaluate " + qname(sz) + ": " + ctx.why
+		}
+		if rs[0].i != total {
+			return nil, fmt.Sprintf("state %s (setters %v): %s gives %d, the encoder %s writes %d bytes", spec.name, st.Calls, qname(sz), rs[0].i, qname(fill), total)
+		}
+		n++
+	}
+	for _, ts := range p.targetedStates(tn, fill, sz) {
+		_, total, why := p.encoderTrace(ts.st, fill)
+		if why != "" {
+			return nil, "state " + ts.name + ": " + why
+		}
+		ctx := p.newSym(p.globalInput())
+		for k, v := range ts.st.Mem {
+			ctx.mem[k] = v
+		}
+		for k, v := range ts.st.Maps {
+			ctx.maps[k] = v
+		}
+		rs, ok := ctx.evalPure(sz, []sv{{k: 'p', addr: ts.st.Recv}}, nil, 0)
+		if !ok || len(rs) != 1 || rs[0].k != 'i' {
+			return nil, "state " + ts.name + ": cannot evaluate " + qname(sz) + ": " + ctx.why
+		}
+		if rs[0].i != total {
+			return nil, fmt.Sprintf("state %s: %s gives %d, the encoder %s writes %d bytes", ts.name, qname(sz), rs[0].i, qname(fill), total)
+		}
+		n++
+	}
+	if n == 0 {
+		return nil, "no abstract state of " + tn
+	}
+	return fill, fmt.Sprintf("%s and the dry run of %s give the same size on all %d abstract states (boundary-targeted ones included)", qname(sz), qname(fill), n)
+}
+
+// ---------- targeted states: a length prefix steered onto a boundary ----------
+
+// harvestedConstants: the integer constants ≥ 100 (and within the variable byte integer range) that occur in
+// the given functions and in the library functions they call (three levels deep).
+func (p *Prog) harvestedConstants(roots []*ssa.Function) []int64 {
+	seen := map[*ssa.Function]bool{}
+	set := map[int64]bool{}
+	var visit func(fn *ssa.Function, depth int)
+	visit = func(fn *ssa.Function, depth int) {
+		if fn == nil || seen[fn] || fn.Blocks == nil || !p.inMQ(fn) || depth > 3 {
+			return
+		}
+		seen[fn] = true
+		// the wire types' own methods are decided on their own (C15, R1.4): their constants are not thresholds of
+		// the packet-level arithmetic
+		if fn.Signature.Recv() != nil {
+			rt := fn.Signature.Recv().Type()
+			if pt, ok := rt.Underlying().(*types.Pointer); ok {
+				rt = pt.Elem()
+			}
+			if p.wireKindOf(rt) != "" {
+				return
+			}
+		}
+		for _, k := range intConstantsOf(fn) {
+			if k >= 100 && k <= vbiMax+1 {
+				set[k] = true
+			}
+		}
+		for _, b := range fn.Blocks {
+			for _, ins := range b.Instrs {
+				if call, ok := ins.(*ssa.Call); ok {
+					if sc := call.Call.StaticCallee(); sc != nil {
+						visit(sc, depth+1)
+					}
+				}
+			}
+		}
+	}
+	for _, r := range roots {
+		visit(r, 0)
+	}
+	var out []int64
+	for k := range set {
+		out = append(out, k)
+	}
+	sort.Slice(out, func(i, j int) bool { return out[i] < out[j] })
+	return out
+}
+
+type targetedState struct {
+	name string
+	st   *packetState
+}
+
+// targetedStates: abstract packet states of tn in which the remaining length, or the first property length, has
+// exactly a boundary value: the sizes at which a variable byte integer grows by a byte (127/128, 16 383/16 384,
+// 2 097 151/2 097 152) and the neighbourhood of every constant ≥ 100 in the encoder's own code (`extra` roots
+// add theirs).  The state is the "all setters" (and the "no setter") state with the user properties stretched
+// until the measured length is the target; a type without AddUserProp, or a target below what the state
+// occupies anyway, yields nothing.
+func (p *Prog) targetedStates(tn string, fill *ssa.Function, extra ...*ssa.Function) []targetedState {
+	key := "targeted:" + tn
+	for _, e := range extra {
+		key += "|" + qname(e)
+	}
+	if v, ok := p.cache[key]; ok {
+		return v.([]targetedState)
+	}
+	var out []targetedState
+	defer func() { p.cache[key] = out }()
+	if p.Method(tn, "AddUserProp") == nil || fill == nil || os.Getenv("MQV_NOTARGET") != "" {
+		return nil
+	}
+	tset := map[int64]bool{}
+	for _, k := range []int64{127, 128, 16383, 16384, 2097151, 2097152} {
+		tset[k] = true
+	}
+	consts := p.harvestedConstants(extra) // the size function's own constants first, all of them
+	more := p.harvestedConstants([]*ssa.Function{fill})
+	if len(more) > 40 {
+		more = append(more[:20:20], more[len(more)-20:]...)
+	}
+	consts = append(consts, more...)
+	for _, k := range consts {
+		for d := int64(-1); d <= 1; d++ {
+			if k+d >= 100 && k+d <= vbiMax {
+				tset[k+d] = true
+			}
+		}
+	}
+	var targets []int64
+	for k := range tset {
+		targets = append(targets, k)
+	}
+	sort.Slice(targets, func(i, j int) bool { return targets[i] < targets[j] })
+	measure := func(st *packetState, which int) (int64, bool) {
+		evs, _, why := p.encoderTrace(st, fill)
+		if why != "" {
+			return 0, false
+		}
+		var em []layoutEvent
+		for _, e := range evs {
+			if e.Width != 0 {
+				em = append(em, e)
+			}
+		}
+		if len(em) < 2 || em[1].Kind != "vbi" || em[1].Val.k != 'i' {
+			return 0, false
+		}
+		if which == 0 {
+			return em[1].Val.i, true
+		}
+		for _, e := range em[2:] {
+			if e.Kind == "vbi" && e.Src == "" && e.Val.k == 'i' && e.Op == "fill" {
+				return e.Val.i, true
+			}
+		}
+		return 0, false
+	}
+	for _, baseName := range []string{"all", "none"} {
+		var base *stateSpec
+		for _, sp := range p.stateSpecs(tn) {
+			if sp.name == baseName {
+				sp := sp
+				base = &sp
+			}
+		}
+		if base == nil {
+			continue
+		}
+		inner := base.choose
+		base.choose = func(n string) int {
+			if n == "AddUserProp" {
+				return 0
+			}
+			return inner(n)
+		}
+		for which, what := range []string{"remaining length", "property length"} {
+			for _, t := range targets {
+				if baseName == "none" && (which == 1 || t > 200) {
+					continue // the bare packet: only the first growth of the remaining-length field
+				}
+				stretch := int64(0)
+				var st *packetState
+				hit := false
+				for iter := 0; iter < 5; iter++ {
+					sp := *base
+					sp.stretch = stretch
+					s2, _ := p.c10State(tn, sp)
+					if s2 == nil {
+						break
+					}
+					m, ok := measure(s2, which)
+					if !ok {
+						break
+					}
+					if os.Getenv("MQV_TARGET") == "3" && iter == 1 && t > 2000000 {
+						evs, _, _ := p.encoderTrace(s2, fill)
+						for _, e := range evs {
+							if e.Kind == "pair" {
+								fmt.Fprintf(os.Stderr, "   pair width %d val %v\n", e.Width, e.Val)
+							}
+						}
+					}
+					if os.Getenv("MQV_TARGET") == "2" {
+						fmt.Fprintf(os.Stderr, "  iter %d stretch=%d measure=%d target=%d\n", iter, stretch, m, t)
+					}
+					if m == t {
+						st, hit = s2, true
+						break
+					}
+					stretch += t - m
+					if stretch <= 0 {
+						break
+					}
+				}
+				if os.Getenv("MQV_TARGET") != "" {
+					fmt.Fprintf(os.Stderr, "target %s %s %s=%d hit=%v stretch=%d\n", tn, baseName, what, t, hit, stretch)
+				}
+				if hit {
+					out = append(out, targetedState{name: fmt.Sprintf("%s, user properties stretched until the %s is %d", baseName, what, t), st: st})
+				}
+			}
+		}
+	}
+	return out
+}
+
+// frameArithmeticProblem: the emitted frame starts with the one-byte header and a remaining-length field whose
+// value is exactly the number of bytes emitted after it, in the minimal number of bytes.
+func frameArithmeticProblem(evs []layoutEvent) string {
+	var em []layoutEvent
+	for _, e := range evs {
+		if e.Width != 0 {
+			em = append(em, e)
+		}
+	}
+	switch {
+	case len(em) < 2 || em[0].Kind != "byte" || em[0].Width != 1:
+		return "the frame does not start with the one-byte header"
+	case em[1].Kind != "vbi" || em[1].Val.k != 'i':
+		return "the second item is not a determined remaining-length field"
+	}
+	var rest int64
+	for _, e := range em[2:] {
+		rest += e.Width
+	}
+	if em[1].Val.i != rest {
+		return fmt.Sprintf("remaining length says %d but %d bytes follow it (frame of %d bytes)", em[1].Val.i, rest, 1+em[1].Width+rest)
+	}
+	if em[1].Width != vbiWidth(rest) {
+		return fmt.Sprintf("the remaining-length field for %d occupies %d bytes", rest, em[1].Width)
+	}
+	return ""
+}
+
+// traceStringShort: the trace, shortened in the middle when long (stretched states carry many user properties).
+func traceStringShort(evs []layoutEvent) string {
+	t := traceString(evs)
+	if len(t) > 900 {
+		t = t[:600] + " … " + t[len(t)-250:]
+	}
+	return t
+}
+
 // checkFrameArithmetic (R10.7): evaluate each packet encoder on the abstract packet states of the
 // C01 generator (without the well-formedness filter: C10 also covers malformed-but-constructible packets)
 // and compare the remaining-length value with the widths of everything emitted after it.
 func checkFrameArithmetic(p *Prog, c *Check) {
 	nstates := 0
+	ntargeted := 0
 	for _, tn := range packetTypeNames() {
 		fill := p.Method(tn, "fill")
 		if fill == nil {
 			c.Bad("anchor", tn, "-", "fill not found")
 			continue
 		}
-		var will *packetState
 		bad := ""
 		n := 0
-		specs := p.stateSpecs(tn)
-		if p.Method(tn, "SetQoS") != nil {
-			// C10's domain includes malformed but constructible packets: every state once more with QoS 3
-			for _, sp := range append([]stateSpec(nil), specs...) {
-				if sp.bias > 0 {
-					continue
-				}
-				sp.name += ", QoS 3"
-				sp.qos = 3
-				specs = append(specs, sp)
-			}
-		}
-		if payloadList[tn] != "" {
-			// … and the packet without any filter / reason code
-			for _, sp := range append([]stateSpec(nil), specs...) {
-				if sp.bias > 0 || !(strings.HasPrefix(sp.name, "none") || strings.HasPrefix(sp.name, "all")) || strings.Contains(sp.name, "twice") || strings.Contains(sp.name, "but") {
-					continue
-				}
-				sp.name += ", empty payload list"
-				sp.emptyList = true
-				specs = append(specs, sp)
-			}
-		}
+		specs := p.c10Specs(tn)
 		for _, spec := range specs {
-			if spec.will == 1 && will == nil {
-				will, _ = p.willState()
-			}
-			var wp *packetState
-			if spec.will == 1 {
-				wp = will
-			}
-			if spec.will == 3 || spec.will == 1 && spec.bias > 0 {
-				wp, _ = p.willFor(spec)
-			}
-			st, why := p.buildStateSpec(tn, spec, nil, wp)
+			st, why := p.c10State(tn, spec)
 			if st == nil {
 				if bad == "" {
 					bad = "state " + spec.name + ": " + why
@@ -1514,31 +1922,23 @@ func checkFrameArithmetic(p *Prog, c *Check) {
 				continue
 			}
 			n++
-			var em []layoutEvent
-			for _, e := range evs {
-				if e.Width != 0 {
-					em = append(em, e)
-				}
-			}
-			problem := ""
-			switch {
-			case len(em) < 2 || em[0].Kind != "byte" || em[0].Width != 1:
-				problem = "the frame does not start with the one-byte header"
-			case em[1].Kind != "vbi" || em[1].Val.k != 'i':
-				problem = "the second item is not a determined remaining-length field"
-			default:
-				var rest int64
-				for _, e := range em[2:] {
-					rest += e.Width
-				}
-				if em[1].Val.i != rest {
-					problem = fmt.Sprintf("remaining length says %d but %d bytes follow it (frame of %d bytes)", em[1].Val.i, rest, 1+em[1].Width+rest)
-				} else if em[1].Width != vbiWidth(rest) {
-					problem = fmt.Sprintf("the remaining-length field for %d occupies %d bytes", rest, em[1].Width)
-				}
-			}
-			if problem != "" && bad == "" {
+			if problem := frameArithmeticProblem(evs); problem != "" && bad == "" {
 				bad = fmt.Sprintf("state %s (setters %v): %s; emitted: %s", spec.name, st.Calls, problem, traceString(evs))
+			}
+		}
+		// … and on states steered so that the remaining length, or the property length, sits on a boundary
+		for _, ts := range p.targetedStates(tn, fill) {
+			evs, _, why := p.encoderTrace(ts.st, fill)
+			if why != "" {
+				if bad == "" {
+					bad = "state " + ts.name + ": " + why
+				}
+				continue
+			}
+			n++
+			ntargeted++
+			if problem := frameArithmeticProblem(evs); problem != "" && bad == "" {
+				bad = fmt.Sprintf("state %s: %s; emitted: %s", ts.name, problem, traceStringShort(evs))
 			}
 		}
 		nstates += n
@@ -1549,6 +1949,28 @@ func checkFrameArithmetic(p *Prog, c *Check) {
 		}
 	}
 	c.Measured["abstract_states"] = nstates
+	c.Measured["boundary_targeted_states"] = ntargeted
+}
+
+// evaluatedOK: the evaluation rule `rule` was discharged for the packet type whose encoder is fn.
+func evaluatedOK(c *Check, rule string, fn *ssa.Function) bool {
+	if fn == nil || fn.Signature.Recv() == nil {
+		return false
+	}
+	nt := namedOf(fn.Signature.Recv().Type())
+	if nt == nil {
+		return false
+	}
+	found := false
+	for _, o := range c.Obls {
+		if o.Rule == rule && o.Construct == nt.Obj().Name() {
+			if o.Status != Discharged {
+				return false
+			}
+			found = true
+		}
+	}
+	return found
 }
 
 // ---------- R10.8: length prefixes, structurally ----------
@@ -1697,14 +2119,14 @@ func lengthPrefixFindings(p *Prog, topLevel map[*ssa.Function]bool) []guardFindi
 				out = append(out, guardFinding{cons: cons, pos: pos, ok: true, how: fmt.Sprintf("%d length prefix(es), %d feasible path(s): by linear accounting each prefix equals the total width of the emissions it covers", ar.prefixes, ar.paths)})
 				return
 			} else if ar.applicable && ar.prefixes > 0 && ar.prefixWhy != "" {
-				out = append(out, guardFinding{cons: cons, pos: pos, unk: true, how: "the remaining length is not a sum of dry runs of what follows it, and linear accounting does not settle it: " + ar.prefixWhy})
+				out = append(out, guardFinding{cons: cons, pos: pos, unk: true, top: fn, how: "the remaining length is not a sum of dry runs of what follows it, and linear accounting does not settle it: " + ar.prefixWhy})
 				return
 			}
 			what := "nothing"
 			if len(ems) > 1 && len(ems[1].call.Call.Args) > 0 {
 				what = describeVal(ems[1].call.Call.Args[0])
 			}
-			out = append(out, guardFinding{cons: cons, pos: pos, unk: true, how: "the remaining length of this packet encoder (" + what + ") is not computed from dry runs of what is emitted after it inside the encoder: that it equals the bytes that follow is not decided for all packet states"})
+			out = append(out, guardFinding{cons: cons, pos: pos, unk: true, top: fn, how: "the remaining length of this packet encoder (" + what + ") is not computed from dry runs of what is emitted after it inside the encoder: that it equals the bytes that follow is not decided for all packet states"})
 		}
 		if buf == nil || len(ems) == 0 {
 			continue
